@@ -23,6 +23,7 @@ EXPLANATION = (
     ".get(k, default) - a remap to None (a falsy but legitimate attribute) is not lost; (5) CUTATTR: the space that replaces a double-width character cut by a trim takes its attribute from the character just outside the kept "
     "range on that side (spos - 1 on the left, epos on the right), never from a kept neighbour."
     ' Added after seed round 3: (9) ACCUM - running positions of the canvas composition loops (shards_trim_sides, CanvasJoin, CanvasCombine, shards_trim_rows, the rle walkers) advance in every continuing iteration, `continue` paths included; (10) the column-frame rule of calc_trim_text (C11.9).'
+    " Round 4: the coords shift of pad_trim_left_right / trim is made under exactly the conditions under which the shards are replaced; (11) LOOPFRESH - per-shard state (content_delta's row memo, new_cviews, the running column) is defined anew for every shard."
 )
 NOT_DECIDED = "Cell-for-cell equality with the grid model, the width arithmetic of cutting wide characters, content_delta round trip - statements about values of the shard algebra."
 ASSUMPTIONS = []
